@@ -111,37 +111,55 @@ def same_signal(ctx, obs, rule='SAME'):
               'the loop runs n_sim times', f'`{norm(rng)}`', '', where(prog, f, lp))
 
 
+def _count_paths(e, pred):
+    """(min, max) number of sub-expressions satisfying pred along any PHI-free alternative of e"""
+    if isinstance(e, ast.Call) and isinstance(e.func, ast.Name) and e.func.id == 'PHI':
+        rs = [_count_paths(a, pred) for a in e.args]
+        return min(r[0] for r in rs), max(r[1] for r in rs)
+    lo = hi = 1 if pred(e) else 0
+    for ch in ast.iter_child_nodes(e):
+        if isinstance(ch, ast.expr) or isinstance(ch, ast.keyword):
+            a, b = _count_paths(ch.value if isinstance(ch, ast.keyword) else ch, pred)
+            lo += a
+            hi += b
+    return lo, hi
+
+
 def additive(ctx, obs, rule='ADD'):
     prog = ctx.prog
     q = S + 'make_dataset'
     f = prog.func(q)
     r = ctx.dep.result(q)
-    inl = Inliner(r, None, (), stop=('Zcond', 'true_U', 'noise_chol_channel', 'noise_chol_trial'))
-    ds = [s for s in ast.walk(f.node) if isinstance(s, ast.Assign) and isinstance(s.targets[0], ast.Name) and s.targets[0].id == 'data']
+    inl = Inliner(r, None, ())
     cs = [c for c in r.calls if any(x.endswith('DatasetBase.__init__') for x in c.callees)]
-    if not cs:
+    if not cs or not cs[0].node.args:
         return
-    e = inl.inline(cs[0].node.args[0]) if cs[0].node.args else None
-    if e is None or not (isinstance(e, ast.BinOp) and isinstance(e.op, ast.Add)):
-        obs.bad(rule, q, 'data = signal term + noise term', f'the measurements `{ast.unparse(e)[:90] if e is not None else None}` are not '
+    e = inl.inline(cs[0].node.args[0])
+    if not (isinstance(e, ast.BinOp) and isinstance(e.op, ast.Add)):
+        obs.bad(rule, q, 'data = signal term + noise term', f'the measurements `{ast.unparse(e)[:90]}` are not '
                 f'a sum of a signal term and a noise term', where(prog, f, cs[0].node))
         return
+
+    def has_call(x, leaf):
+        return any(isinstance(n, ast.Call) and _leaf(n.func) == leaf for n in ast.walk(x))
+
+    def is_sqrt_of(param):
+        return lambda n: isinstance(n, ast.Call) and _leaf(n.func) == 'sqrt' and n.args and isinstance(n.args[0], ast.Name) \
+            and n.args[0].id == 'PARAM_' + param
     l, rr = e.left, e.right
-    sig, noi = (l, rr) if 'true_U' in ast.unparse(l) else (rr, l)
-    s_txt = ast.unparse(sig)
-    obs.check('Zcond' in s_txt and 'true_U' in s_txt and s_txt.count('sqrt(PARAM_signal)') + s_txt.count('sqrt(signal)') == 1, rule, q,
-              'the signal term is design @ signal pattern * sqrt(signal)', f'signal term `{s_txt[:90]}`', '', where(prog, f, cs[0].node))
-    n_txt = ast.unparse(noi)
-    n_sqrt = n_txt.count('sqrt(PARAM_noise)') + n_txt.count('sqrt(noise)')
-    obs.check(n_sqrt >= 1 and 'ppf' in n_txt, rule, q, 'the noise term is a standard-normal draw scaled by sqrt(noise)',
-              f'noise term `{n_txt[:120]}`', '', where(prog, f, cs[0].node))
-    # exactly once per alternative (PHI alternatives repeat the factor textually)
-    eps = [s for s in ast.walk(f.node) if isinstance(s, ast.Assign) and isinstance(s.targets[0], ast.Name) and s.targets[0].id == 'epsilon']
-    n_scaled = sum(1 for s in eps if 'sqrt(noise)' in norm(s.value))
-    obs.check(n_scaled == 1, rule, q, 'sqrt(noise) scales the noise exactly once', f'{n_scaled} assignments scale by sqrt(noise)', '',
-              where(prog, f, f.node))
-    obs.check('signal' not in {x.id for x in ast.walk(noi) if isinstance(x, ast.Name)} and 'PARAM_signal' not in n_txt, rule, q,
-              'the noise term does not scale with the signal strength', f'`{n_txt[:80]}`', '', where(prog, f, cs[0].node))
+    sig, noi = (l, rr) if has_call(l, 'make_signal') else (rr, l)
+    obs.check(has_call(sig, 'make_signal') and _count_paths(sig, is_sqrt_of('signal')) == (1, 1), rule, q,
+              'the signal term is design @ signal pattern * sqrt(signal)',
+              f'signal term `{ast.unparse(sig)[:100]}` does not carry sqrt(signal) exactly once', '', where(prog, f, cs[0].node))
+    lo, hi = _count_paths(noi, is_sqrt_of('noise'))
+    obs.check(has_call(noi, 'ppf') and lo >= 1, rule, q, 'the noise term is a standard-normal draw scaled by sqrt(noise)',
+              f'noise term `{ast.unparse(noi)[:120]}`', '', where(prog, f, cs[0].node))
+    obs.check((lo, hi) == (1, 1), rule, q, 'sqrt(noise) scales the noise exactly once',
+              f'sqrt(noise) occurs between {lo} and {hi} times along the alternatives of the noise term', '', where(prog, f, cs[0].node))
+    obs.check(_count_paths(noi, is_sqrt_of('signal'))[1] == 0 and not any(isinstance(n, ast.Name) and n.id == 'PARAM_signal' for n in ast.walk(noi)),
+              rule, q, 'the noise term does not scale with the signal strength', f'`{ast.unparse(noi)[:80]}`', '', where(prog, f, cs[0].node))
+    obs.check(not has_call(sig, 'ppf') or has_call(sig, 'make_signal'), rule, q, 'signal and noise are separate draws', '', '',
+              where(prog, f, cs[0].node))
 
 
 def design(ctx, obs, rule='DESIGN'):
